@@ -12,6 +12,7 @@ from .ref import bintrie as bt
 BIN_UNIVERSES = {
     "B8": ["00", "01", "80", "0000", "0001", "0080", "0180", "ff"],
     "B6": ["00", "01", "80", "0000", "0080", "ff"],
+    "B4": ["00", "0000", "0080", "ff"],
     "B10": ["00", "01", "80", "0000", "0001", "0080", "0180", "ff", "8000", "0101"],
     "B4L": ["12345678", "12345679", "123456ff", "92345678", "1234"],
     # keys sharing more than 64 bits of prefix, one of them a prefix of the others, one diverging at the first bit
@@ -22,7 +23,10 @@ BIN_UNIVERSES = {
     "BXL": ["33" * 33, "33" * 32 + "34", "44" * 40],
 }
 BIN_PROBES = ["000000", "40", "0100", "ffff", "02", "fe", "008000"]
-BIN_VALUES = {"a": b"a", "bb": b"bb", "c33": b"c" * 33}
+BIN_VALUES = {"a": b"a", "bb": b"bb", "c33": b"c" * 33,
+              # values that look like the trie's own encodings: a branch node, a kv node, the blank hash
+              "br65": b"\x01" + b"B" * 64, "kv34": b"\x00\x10" + b"K" * 32,
+              "blank": bytes.fromhex("c5d2460186f7233c927e7db2dcc703c0e500b653ca82273b7bfad8045d85a470")}
 
 
 def snapshot(t):
@@ -42,13 +46,15 @@ def canon(snap):
 
 
 class BinSys:
-    def __init__(self, *, universe="B8", values=("a", "bb"), seed=0, props=("C12",), forms=("m",)):
-        self.kw = dict(universe=universe, values=list(values), seed=seed, props=sorted(props), forms=list(forms))
+    def __init__(self, *, universe="B8", values=("a", "bb"), seed=0, props=("C12",), forms=("m",), chain=0):
+        self.kw = dict(universe=universe, values=list(values), seed=seed, props=sorted(props), forms=list(forms), chain=chain)
+        self.chain = chain
+        self.many_events = bool(chain)
         # seed: an order-preserving relabelling is not meaningful for bit paths (only 0/1); the seed picks the value filler bytes
         self.keys = [bytes.fromhex(h) for h in BIN_UNIVERSES[universe]]
         self.probes = self.keys + [bytes.fromhex(h) for h in BIN_PROBES if bytes.fromhex(h) not in self.keys]
         fill = 0 if seed == 0 else (seed * 7919) % 90
-        self.vals = [bytes((c + fill) % 256 or 1 for c in BIN_VALUES[v]) for v in values]
+        self.vals = [BIN_VALUES[v] if v in ("br65", "kv34", "blank") else bytes((c + fill) % 256 or 1 for c in BIN_VALUES[v]) for v in values]
         self.props = set(props)
         self.forms = tuple(forms)
         self.stats = collections.Counter()
@@ -70,6 +76,9 @@ class BinSys:
     canon = staticmethod(canon)
 
     def events(self, snap, model):
+        if self.chain:
+            import itertools
+            return [("chain",) + seq for seq in itertools.product(self.ops, repeat=self.chain)]
         return [("op", op, f) for op in self.ops for f in self.forms]
 
     @staticmethod
@@ -116,8 +125,22 @@ class BinSys:
             t.delete_subtrie(k)
 
     def step(self, snap, model, ev):
+        if ev[0] == "chain":
+            # several operations on ONE live trie object, no snapshot/restore in between
+            t = restore(snap)
+            cur_snap, cur_model, viols = snap, model, []
+            for op in ev[1:]:
+                t.db.reset_log()
+                st = self._do(t, cur_snap, cur_model, ("op", op, "m"))
+                viols += st.viols
+                if st.snap is None or st.viols:
+                    return Step(None, st.model, viols)
+                cur_snap, cur_model = st.snap, st.model
+            return Step(cur_snap, cur_model, viols)
+        return self._do(restore(snap), snap, model, ev)
+
+    def _do(self, t, snap, model, ev):
         _, op, form = ev
-        t = restore(snap)
         viols = []
         self.stats["ev:" + op[0]] += 1
         m2, must, may = self.model_step(model, op)
@@ -237,6 +260,10 @@ class BinSys:
 
     def live_apply(self, live, ev):
         t, m = live
+        if ev[0] == "chain":
+            for op in ev[1:]:
+                self.live_apply(live, ("op", op, "m"))
+            return
         try:
             self.apply(t, ev[1], ev[2])
         except NodeOverrideError:
